@@ -110,15 +110,18 @@ def mergeContainers (c1 c2 : AMap Node) : AMap Node := mergeKvs c1 c2
 
 /-! ## set_op.go -/
 
-/-- setOpMergeIfContainersReplaceOtherwise -/
+/-- what setOpMergeIfContainersReplaceOtherwise stores under a key: the merge when the existing
+    child and the payload's value are both containers, else the payload's value -/
+def mergeOrReplace (mergeC : AMap Node → AMap Node → AMap Node) (o : Option Node) (v : Node) : Node :=
+  match o, v with
+  | some (.cont oc), .cont vc => .cont (mergeC oc vc)
+  | _, _ => v
+
+/-- setOpMergeIfContainersReplaceOtherwise: `orig.AddValue(k, …)` per child of the payload -/
 def setMergeRoot (mergeC : AMap Node → AMap Node → AMap Node) (orig : AMap Node) :
     List (String × Node) → AMap Node
   | [] => orig
-  | (k, v) :: rest =>
-    let orig' := match child orig k, v with
-      | some (.cont oc), .cont vc => add orig k (.cont (mergeC oc vc))
-      | _, _ => add orig k v
-    setMergeRoot mergeC orig' rest
+  | (k, v) :: rest => setMergeRoot mergeC (add orig k (mergeOrReplace mergeC (child orig k) v)) rest
 
 /-- replace handler, empty path: AddValueAt(k, v) per child of the payload -/
 def setReplaceRoot (orig : AMap Node) : List (String × Node) → AMap Node
